@@ -22,6 +22,8 @@ pub enum TransformError {
   AlreadyDefined(String),
   #[error("source `{0}` should be $-prefixed.")]
   MalformedVar(String),
+  #[error("`replace` regex `{0}` is invalid: {1}")]
+  InvalidRegex(String, String),
 }
 
 pub struct Transform {
